@@ -78,7 +78,18 @@ def main():
         shutil.rmtree(os.path.join(VERIF, "evidence"), ignore_errors=True)
         shutil.copytree(ev_backup, os.path.join(VERIF, "evidence"))
         shutil.rmtree(ev_backup, ignore_errors=True)
-    json.dump(out, open(os.path.join(d, "result.json"), "w"), indent=1)
+    # merge with what earlier evaluations of this seed recorded (a later run may cover other properties / skip the baseline)
+    rp = os.path.join(d, "result.json")
+    try:
+        old = json.load(open(rp))
+    except (OSError, ValueError):
+        old = {}
+    merged = dict(old)
+    merged["tier"] = tier
+    if "baseline_tail" in out:
+        merged["baseline_tail"] = out["baseline_tail"]
+    merged.setdefault("results", {}).update(out["results"])
+    json.dump(merged, open(rp, "w"), indent=1)
     return 0
 
 
